@@ -14,6 +14,36 @@ import z3
 SOLVER_TIMEOUT_MS = int(os.environ.get("VERIF_SOLVER_TIMEOUT_MS", "60000"))
 
 
+CVC5_TIMEOUT_MS = int(os.environ.get("VERIF_CVC5_TIMEOUT_MS", "30000"))
+
+
+def cvc5_check(smt2_text):
+    """Second opinion on one exported obligation: returns 'unsat' | 'sat' | 'unknown' | 'error: ...' from cvc5 (Python wheel,
+    in process) on the SMT-LIB 2 text z3 exported.  Only used to re-discharge obligations z3 reported unsat."""
+    try:
+        import cvc5
+    except Exception as e:  # noqa: BLE001
+        return "error: cvc5 not importable: " + str(e)
+    try:
+        logic = "ALL" if ("Int" in smt2_text or "bv2nat" in smt2_text or "int2bv" in smt2_text) else "QF_BV"
+        slv = cvc5.Solver()
+        slv.setOption("tlimit-per", str(CVC5_TIMEOUT_MS))
+        parser = cvc5.InputParser(slv)
+        parser.setStringInput(cvc5.InputLanguage.SMT_LIB_2_6, f"(set-logic {logic})\n" + smt2_text, "obligation")
+        sm = parser.getSymbolManager()
+        res = "unknown"
+        while True:
+            cmd = parser.nextCommand()
+            if cmd.isNull():
+                break
+            out = str(cmd.invoke(slv, sm)).strip()
+            if out in ("sat", "unsat", "unknown"):
+                res = out
+        return res
+    except Exception as e:  # noqa: BLE001
+        return "error: " + str(e)[:200]
+
+
 def _and(xs):
     xs = [x for x in xs if x is not None]
     if not xs:
@@ -59,6 +89,8 @@ class Ctx:
         self._names = set()
         self._posts = []  # (hw, name, post, assume) of every non-invariant obligation
         self._inv_failed = []  # (record, hw) of failed invariant-preservation obligations
+        # thorough tier: every obligation z3 discharges is exported as SMT-LIB 2 and re-discharged by cvc5
+        self.recheck = (tier == "thorough" or os.environ.get("VERIF_CVC5") == "1") and os.environ.get("VERIF_CVC5") != "0"
 
     # -- bookkeeping ---------------------------------------------------------------------------
     def use(self, hw, xval_cycles=None):
@@ -107,11 +139,16 @@ class Ctx:
         r = s.check()
         dt = time.time() - t0
         self.solver_time += dt
-        rec = {"name": name, "cfg": self.cfg, "time_s": round(dt, 4), "backend": "z3-" + z3.get_version_string()}
+        rec = {"name": name, "cfg": self.cfg, "time_s": round(dt, 4), "backend": "z3-" + z3.get_version_string(), "n_assume": len(as_list(assume))}
         if note:
             rec["note"] = note
         if r == z3.unsat:
             rec["verdict"] = "proved"
+            if self.recheck:
+                t1 = time.time()
+                rec["cvc5"] = cvc5_check(s.to_smt2())
+                rec["cvc5_time_s"] = round(time.time() - t1, 4)
+                self.solver_time += time.time() - t1
         elif r == z3.unknown:
             rec["verdict"] = "unknown"
             rec["reason"] = s.reason_unknown()
